@@ -233,6 +233,7 @@ impl<T, E> AuxBoxData<std::result::Result<T, E>> {
 pub struct AuxBoxList {
     boxes: Vec<(ContainerBoxType, AuxBoxReader)>,
     jbrd: Jbrd,
+    jbrd_done: bool,
     current_box_ty: Option<ContainerBoxType>,
     current_box: AuxBoxReader,
     last_box: bool,
@@ -243,6 +244,7 @@ impl AuxBoxList {
         Self {
             boxes: Vec::new(),
             jbrd: Jbrd::new(),
+            jbrd_done: false,
             current_box_ty: None,
             current_box: AuxBoxReader::new(),
             last_box: false,
@@ -292,6 +294,7 @@ impl AuxBoxList {
         match self.current_box_ty {
             Some(ContainerBoxType::JPEG_RECONSTRUCTION) => {
                 self.jbrd.finalize()?;
+                self.jbrd_done = true;
             }
             Some(ty) => {
                 self.current_box.finalize()?;
@@ -316,7 +319,9 @@ impl AuxBoxList {
 
 impl AuxBoxList {
     pub(crate) fn jbrd(&self) -> AuxBoxData<&jxl_jbr::JpegBitstreamData> {
-        if let Some(data) = self.jbrd.data() {
+        // The header alone is not enough; the box has to be complete and its data section has to
+        // have the length the header promises (checked in `Jbrd::finalize`).
+        if let Some(data) = self.jbrd.data().filter(|_| self.jbrd_done) {
             AuxBoxData::Data(data)
         } else if self.last_box
             && self.current_box_ty != Some(ContainerBoxType::JPEG_RECONSTRUCTION)
